@@ -13,11 +13,13 @@ from ..pattern import canon, matches
 # functions whose result is a member of the group by construction (each is itself covered by a table / form rule)
 CLOSED = {
     'rotx', 'roty', 'rotz', 'rot2', 'trotx', 'troty', 'trotz', 'trot2', 'eul2r', 'rpy2r', 'eul2tr', 'rpy2tr', 'angvec2r',
-    'angvec2tr', 'oa2r', 'oa2tr', 'trexp', 'trexp2', 'q2r', 'r2t', 'rt2tr', 'trinv', 'trinv2', 'trnorm', 'trnorm2',
-    'transl', 'transl2', 'trinterp', 'trinterp2', 'r2q', 'rand', 'matrix_power', 'unit', 'xyt2tr', 'rodrigues', 'qqmul',
-    'conj', 'slerp', 'lift3', 'eye', 'identity', '_twist', 'trlog', 'trlog2',
+    'angvec2tr', 'oa2r', 'oa2tr', 'trexp', 'trexp2', 'q2r', 'trnorm', 'trnorm2',
+    'transl', 'transl2', 'trinterp', 'trinterp2', 'r2q', 'rand', 'unit', 'xyt2tr', 'rodrigues',
+    'slerp', 'lift3', 'eye', 'identity', '_twist', 'trlog', 'trlog2',
 }
-ARG_CLOSED = {'matrix_power'}
+# transporters: the result is a member exactly when the listed arguments are (r2t(R) is in SE(3) iff R is in SO(3)); a raw
+# parameter counts as a member only under a dominating membership test with the check enabled
+ARG_CLOSED = {'matrix_power': (0,), 'r2t': (0,), 't2r': (0,), 'rt2tr': (0,), 'trinv': (0,), 'trinv2': (0,), 'conj': (0,), 'qqmul': (0, 1)}
 FIRST_ORDER = {'delta2tr': 'first-order motion I + skewa(d): approximate by definition (documented)'}
 POSE_CLASSES = {'SO2', 'SE2', 'SO3', 'SE3', 'UnitQuaternion'}
 
@@ -37,20 +39,41 @@ def closed_expr(fi, e, member_vars, depth=0):
                 for y in ast.walk(g.target):
                     if isinstance(y, ast.Name):
                         mv.add(y.id)
-            if isinstance(it, ast.Call) and isinstance(it.func, ast.Name) and it.func.id == 'zip':
-                pass
+            if isinstance(it, ast.Call) and isinstance(it.func, ast.Name) and it.func.id == 'zip' and isinstance(g.target, (ast.Tuple, ast.List)) \
+                    and len(g.target.elts) == len(it.args):
+                # zip(X, Y, R): an element of R is a member object when R was made by a pose-class constructor (R = SO3.Rand(N=N))
+                from ..astutil import single_assignments
+                sa = single_assignments(fi.f.node)
+                for tv, src_ in zip(g.target.elts, it.args):
+                    if isinstance(src_, ast.Name) and src_.id in sa:
+                        src_ = sa[src_.id]
+                    if isinstance(tv, ast.Name) and isinstance(src_, ast.Call):
+                        fn_ = src_.func
+                        root = fn_.value if isinstance(fn_, ast.Attribute) else fn_
+                        if isinstance(root, ast.Name) and root.id in POSE_CLASSES:
+                            mv.add(tv.id)
         return closed_expr(fi, e.elt, mv, depth + 1)
     if isinstance(e, ast.Call):
         fn = e.func
         if isinstance(fn, ast.Name):
             if fn.id in ARG_CLOSED and e.args:
-                # closed only when applied to a member
-                r = closed_expr(fi, e.args[0], member_vars, depth + 1)
-                if r[0] is False:
-                    return r
-                if r[0]:
+                # closed only when applied to members
+                und = None
+                for k in ARG_CLOSED[fn.id]:
+                    if k >= len(e.args):
+                        continue
+                    a = e.args[k]
+                    if isinstance(a, ast.Name) and a.id in fi.f.allparams and a.id not in member_vars and a.id not in fi.self_names():
+                        return (False, '%s(%s) transports the raw parameter %r, which no membership test with the check enabled '
+                                'dominates here: it is a member only if its argument is' % (fn.id, a.id, a.id))
+                    r = closed_expr(fi, a, member_vars, depth + 1)
+                    if r[0] is False:
+                        return r
+                    if not r[0]:
+                        und = r
+                if und is None:
                     return (True, '%s of a member' % fn.id)
-                return (None, '%s of %s' % (fn.id, r[1]))
+                return (None, '%s of %s' % (fn.id, und[1]))
             if fn.id in CLOSED:
                 return (True, 'closed producer ' + fn.id)
             if fn.id in FIRST_ORDER:
@@ -131,8 +154,40 @@ def _homogeneous_receivers(fi):
     return sorted(k.name for k in receiver_classes(program(), f) if k.name in HOMOGENEOUS)
 
 
-def check_unchecked_sites(run, rule='R15c', only=None, keys=None):
-    """only: restrict to methods with these names (the group operations, for C02); keys: restrict to these functions"""
+MEMBER_TESTS = ('isrot', 'ishom', 'isrot2', 'ishom2', 'isR', 'isvalid')
+_cfgs = {}
+
+
+def _validated(f, fi, call):
+    """names whose membership has been tested (check enabled, or left to the caller's own check option) on every path to the call"""
+    key = id(f.node)
+    if key not in _cfgs:
+        cfg = CFG(f.node)
+        _cfgs[key] = (cfg, must_facts(cfg))
+    cfg, facts = _cfgs[key]
+    node = None
+    for n_ in cfg.nodes:
+        a = getattr(n_, 'ast', None)
+        if a is not None and any(y is call for y in ast.walk(a)):
+            node = n_
+            break
+    out = set()
+    if node is None:
+        return out
+    for fc in facts.get(node.id, frozenset()):
+        if not fc[1]:
+            continue
+        t = canon(fi, fc[2].ast, inline=False)
+        if isinstance(t, ast.Call) and isinstance(t.func, ast.Name) and t.func.id in MEMBER_TESTS and t.args and isinstance(t.args[0], ast.Name):
+            ck = kwarg(t, 'check')
+            if t.func.id in ('isR', 'isvalid') or (ck is not None and not (isinstance(ck, ast.Constant) and ck.value is False)):
+                out.add(t.args[0].id)
+    return out
+
+
+def check_unchecked_sites(run, rule='R15c', only=None, keys=None, raw_only=False):
+    """only: restrict to methods with these names (the group operations, for C02); keys: restrict to these functions;
+    raw_only: decide only whether CALLER data reaches an unchecked construction (C07); library-made values are C01's subject"""
     prog = run.prog
     n = 0
     for f in prog.analysed_functions():
@@ -163,8 +218,14 @@ def check_unchecked_sites(run, rule='R15c', only=None, keys=None):
             if not c.args:
                 continue
             e = canon(fi, c.args[0])
-            ok, why = closed_expr(fi, e, set())
+            ok, why = closed_expr(fi, e, _validated(f, fi, c))
             construct = 'unchecked ' + src(c, 70)
+            if raw_only:
+                if ok is False and 'raw parameter' in why:
+                    run.violation(rule, f.key, construct, 'caller data reaches a construction that skips the membership check: ' + why, f=f, node=c)
+                else:
+                    run.holds(rule, f.key, construct, 'no raw parameter is transported into the unchecked construction', f=f, node=c)
+                continue
             if ok:
                 run.holds(rule, f.key, construct, why, f=f, node=c)
             elif ok is False:
